@@ -339,6 +339,15 @@ def _keepalive_guard(repo):
     return "self.__need_rekey" in srcs, "not self.__block_engine_out" in srcs
 
 
+def _saved_before_send(f):
+    """_send_kex_init records local_kex_init (what _negotiate_keys tests to tell who started the exchange) before
+    the KEXINIT is handed to the packetizer"""
+    saves = [n.lineno for n in ast.walk(f) if isinstance(n, ast.Assign)
+             and any(ast.unparse(t) == "self.local_kex_init" for t in n.targets)]
+    sends = [c.lineno for c in _calls(f, "self._send_message")]
+    return bool(saves) and bool(sends) and max(saves) < min(sends)
+
+
 def _flag_set_sites(repo):
     sites = set()
     for path in sorted(glob.glob(os.path.join(repo, "paramiko", "*.py"))):
@@ -509,6 +518,7 @@ def tables(repo):
         "locked_sends": locked,
         "gate_waits": _gate_shape(idx[("Transport", "_send_user_message")]),
         "kexinit_clears_first": _clears_first(idx[("Transport", "_send_kex_init")], ["self._send_message"]),
+        "kexinit_saved_before_send": _saved_before_send(idx[("Transport", "_send_kex_init")]),
         "negotiate_clears_first": _clears_first(idx[("Transport", "_negotiate_keys")],
                                                 ["self._send_kex_init", "self._parse_kex_init"]),
         "newkeys_sets": _newkeys_sets(idx[("Transport", "_parse_newkeys")]),
@@ -557,7 +567,7 @@ def generate(repo):
     out.append("(* Packetizer._check_keepalive returns early while need_rekey is set / before encryption is on *)")
     out.append("Definition keepalive_need_guard : bool := %s." % _b(f["keepalive_need_guard"]))
     out.append("Definition keepalive_cipher_guard : bool := %s." % _b(f["keepalive_cipher_guard"]))
-    for k in ("gate_waits", "kexinit_clears_first", "negotiate_clears_first", "newkeys_sets",
+    for k in ("gate_waits", "kexinit_saved_before_send", "kexinit_clears_first", "negotiate_clears_first", "newkeys_sets",
               "flag_set_only_in_newkeys", "send_message_is_packetizer"):
         out.append("Definition %s : bool := %s." % (k, _b(f[k])))
     out.append("(* public Transport/Channel methods that call _send_message directly: %s *)" % (f["public_ungated"] or "none"))
